@@ -16,7 +16,7 @@ func rawStore(p *int64, v int64)
 
 const (
 	MaxTasks = 8
-	MaxSw    = 1 << 16
+	MaxSw    = 1 << 19
 	MaxSites = 1 << 14
 )
 
@@ -40,6 +40,7 @@ const (
 	KPkgVar
 	KWrite
 	KLockSpin
+	KStmt
 )
 
 // Abort is the panic value used to unwind a task. Why: 1 injected caller abort,
